@@ -144,6 +144,10 @@ MUTANTS = [
     M('sema:paren:inner-replaced-by-null', 'sema', ['C08', 'C06'], 'paren_expr_to_asg_texpr', 'expr_to_asg_texpr(paren_expr.expr(), context)', '{ let r_ = expr_to_asg_texpr(paren_expr.expr(), context); Some(asg::TExpr::new(r_.unwrap().expression, Type::Bool(IsConst::True))) }'),
     M('sema:decl:const-dropped', 'sema', ['C09'], 'classical_declaration_statement_to_asg_stmt', 'scalar_type_to_type(&scalar_type, type_decl.const_token().is_some(), context)', 'scalar_type_to_type(&scalar_type, false, context)'),
     M('sema:io-decl:const', 'sema', ['C09'], 'io_declaration_statement_to_asg_stmt', 'let typ = scalar_type_to_type(&scalar_type, false, context);', 'let typ = scalar_type_to_type(&scalar_type, true, context);'),
+    M('sema:accessor:else-branch-is-none', 'sema', ['C06'], 'If::else_branch', 'self.else_branch.as_ref()', 'None'),
+    M('sema:accessor:stmts-truncated', 'sema', ['C06'], 'Program::stmts', '&self.stmts', '&self.stmts[0..0]'),
+    M('sema:index:set-becomes-list', 'sema', ['C06'], 'index_operator_to_asg_type', 'asg::IndexOperator::SetExpression(set_expression_to_asg_type(set_expression, context))', 'asg::IndexOperator::ExpressionList(asg::ExpressionList::new(set_expression_to_asg_type(set_expression, context).expressions))'),
+    M('sema:range:step-dropped', 'sema', ['C06'], 'range_expression_to_asg_type', 'asg::RangeExpression::new(start, step, stop)', 'asg::RangeExpression::new(start, None, stop)'),
     # ---- PARSER marker discipline
     M('parser:marker:complete-wrong-slot', 'parser', ['C01', 'C02'], 'Marker::complete', 'let idx = self.pos as usize;', 'let idx = (self.pos as usize) + 1;'),
     M('parser:marker:abandon-always-pops', 'parser', ['C01', 'C02'], 'Marker::abandon', 'if idx == p.events.len() - 1 {', 'if idx <= p.events.len() - 1 {'),
